@@ -61,37 +61,30 @@ def argOK (parse : String → Option Term) (a : Gen.DigestArg) : Bool :=
 
 def sidecarPre : List String := ["var isSidecar uint8", "if b.SidecarTicket != nil { isSidecar = 1 }"]
 
-def fnOK (parse : String → Option Term) (f : Gen.DigestFn) (tag dflt : String) : Bool :=
-  f.head == ["var ( msg bytes.Buffer result [hashSize]byte )"] && f.tag == tag &&
+def fnOK (parse : String → Option Term) (f : Gen.DigestFn) (tag : String) : Bool :=
+  f.head == [] && f.tag == tag &&
   f.cases.all (fun c =>
-    -- the only statements before the call define the sidecar flag, exactly when it is an argument
-    c.pre == (if c.args.any (·.expr == "isSidecar") then sidecarPre else []) &&
-    c.post == ["if err != nil { return result, err }"] && c.args.all (argOK parse)) &&
-  f.dflt == [dflt] && f.tail == ["return sha256.Sum256(msg.Bytes()), nil"]
+    -- the only other statements define the sidecar flag, exactly when it is an element
+    c.pre == (if c.args.any (·.expr == "isSidecar") then sidecarPre else []) && c.args.all (argOK parse)) &&
+  f.dflt == ["error"] && f.tail == ["sha256"]
 
-/-- Statement-level shape of `Ask.Digest` / `Bid.Digest` and of the helpers `SubmitOrder` uses = what the
-model assumes: switch on the order version, one `WriteElements` per case with the element widths the model
-uses, `isSidecar` defined as `SidecarTicket != nil`, unknown version = error, SHA-256 of the buffer;
-`nonce := o.Nonce()`, `minChanAmt := uint64(MinUnitsMatch.ToSatoshis())`, units ↔ satoshis by the base
-unit, no order term assigned after the literals, no local re-assigned except by the two enum switches,
-channel-type / node-tier default clauses are errors. -/
+/-- Semantic shape of `Ask.Digest` / `Bid.Digest` (facts from the symbolic evaluation, independent of how the
+element lists are assembled) and of what `SubmitOrder` relies on = what the model assumes: element list
+selected by the order version with the element widths the model uses, `isSidecar` defined as
+`SidecarTicket != nil` exactly where it is an element, no guard, unknown version = error, SHA-256 of the
+written buffer; units ↔ satoshis by the base unit; no order-term field assigned after the literals; an
+unmapped channel type / node tier is an error, an unmapped auction type is the zero value. (Which value
+expression feeds which transmitted field is pinned by `serverOrderMap_eq` / `serverAskMap_eq` /
+`serverBidMap_eq`, over canonical expressions in which names of locals and helpers do not occur.) -/
 theorem C12_code_shape_as_modelled :
-    fnOK parseAskExpr Gen.C12.askDigest "a.Kit.Version"
-      "return result, fmt.Errorf(\"unknown version %d\", a.Kit.Version)" = true ∧
-    fnOK parseBidExpr Gen.C12.bidDigest "b.Kit.Version"
-      "return result, fmt.Errorf(\"unknown version %d\", b.Kit.Version)" = true ∧
-    Gen.C12.submitLocals.lookup "nonce" = some "o.Nonce()" ∧
-    Gen.C12.submitLocals.lookup "minChanAmt" = some "uint64(o.Details().MinUnitsMatch.ToSatoshis())" ∧
-    Gen.C12.submitLocals.lookup "nodeTierEnum,err" = some "MarshallNodeTier(castOrder.MinNodeTier)" ∧
+    fnOK parseAskExpr Gen.C12.askDigest "a.Kit.Version" = true ∧
+    fnOK parseBidExpr Gen.C12.bidDigest "b.Kit.Version" = true ∧
     Gen.C12.supplyToSatoshis = ["return btcutil.Amount(uint64(s) * uint64(BaseSupplyUnit))"] ∧
     Gen.C12.supplyFromSats = ["return SupplyUnit(uint64(sats) / uint64(BaseSupplyUnit))"] ∧
-    Gen.C12.submitFieldAssigns.map (·.1) =
-      ["details.AllowedNodeIds", "details.NotAllowedNodeIds", "rpcRequest.Details", "rpcRequest.Details"] ∧
-    Gen.C12.submitVarAssigns.map (·.1) =
-      ["nodeAddrs", "channelType", "channelType", "channelType", "auctionType", "auctionType"] ∧
-    Gen.C12.submitChannelTypeDefault.length = 1 ∧ Gen.C12.marshallNodeTierDefault.length = 1 ∧
-    Gen.C12.submitAuctionTypeDefault = [] := by decide
-
+    -- no field that carries an order term is assigned after the literals
+    Gen.C12.submitFieldAssigns.all (fun a => (parseWField a.1).all opaqueField) = true ∧
+    Gen.C12.submitChannelTypeDefaultIsError = true ∧ Gen.C12.marshallNodeTierDefaultIsError = true ∧
+    Gen.C12.submitAuctionTypeDefaultIsError = false := by decide
 
 /-! ## the digest preimage determines every term of the version (⇒ "the digest changes") -/
 
